@@ -178,7 +178,8 @@ check("C11", "fault_enumeration",
       "connections with a crash anywhere (incl. Spill: pages written before the commit; CrashAtomic), and that the named deviations batched-commit and "
       "journal-off violate it. Fault enumeration on the real code: a dry "
       "run counts the crash points (objective entry / exit, before / after every SQL statement and commit that artap issues, via a proxy "
-      "around sqlite3.connect) of five scenarios (serial batch, the same with 'database is locked' injected inside sync_individual, two-thread batch, NSGA-II run, "
+      "around sqlite3.connect) of seven scenarios (serial batch, the same with 'database is locked' injected inside sync_individual, designs synchronised before their "
+      "evaluation, a run monitored through a read-mode view opened by the writer itself, two-thread batch, NSGA-II run, "
       "bulk sync_all larger than SQLite's page cache); one forked child per point dies there with os._exit, plus SIGKILL at random instants; the file is reopened through "
       "ProblemViewDataStore, raw SQL and PRAGMA integrity_check; StoreTrace validates: readable, one row per id, every synchronisation that "
       "had returned is present with its data, no partial row, costs match the row's vector. Quick: <=45 points per scenario.",
